@@ -340,6 +340,10 @@ where
                 Ok(())
             }
             DataToken::SequenceEnd => {
+                // the end of a sequence also ends an encapsulated pixel data element:
+                // forget its header, so that the items which follow
+                // are treated as data set items again
+                self.last_de = None;
                 // only write if it's an unknown length sequence
                 if let Some(seq_start) = self.seq_tokens.pop() {
                     if seq_start.typ == SeqTokenType::Sequence && seq_start.len.is_undefined() {
